@@ -35,3 +35,32 @@ if b < 0: b = len(s)
 s = s[:a] + '\n'.join(rows) + s[b:]
 open(p, 'w').write(s)
 print('table rows:', len(rows) - 2)
+
+# ---- §14: seeded changes (from seeded/*/meta.json) ----
+rows2 = ['| seeded change | what it changes (from the independent session) | needs, to manifest | result of ./check |', '|---|---|---|---|']
+for d in sorted(glob.glob(os.path.join(ROOT, 'seeded', '*'))):
+    try:
+        m = json.load(open(os.path.join(d, 'meta.json')))
+    except Exception:
+        continue
+    def cut(x, n):
+        x = re.sub(r'\s+', ' ', str(x or '')).replace('|', '/')
+        return x if len(x) <= n else x[:n] + '…'
+    pid = m.get('property', '')
+    lines = (m.get('checks_run', {}).get(pid, {}) or {}).get('lines', [])
+    res = 'detected' if m.get('detected') else 'MISSED at first — see §12/§15'
+    kinds = [('concrete failing input' if 'no-failing-input-found' not in l else 'tie/proof broke, no failing input found') for l in lines if l.startswith('VIOLATION')]
+    if kinds:
+        res += ' (' + kinds[0] + ')'
+    rows2.append(f"| {os.path.basename(d)} | {cut(m.get('summary'), 260)} | {cut(m.get('needs'), 220)} | {res} |")
+s2 = open(p2 := os.path.join(ROOT, 'DESIGN.md')).read()
+hdr = '## 14. Seeded changes and what caught them (generated)'
+body = hdr + '\n\nEach change was written by an independent session that saw only the property text, compiles, passes the pinned suite, and comes with a demonstration test (seeded/<id>/). `tools/seedcheck.py` confirms all of that in a scratch worktree, applies the patch to /repo, runs `./check`, and reverts.\n\n' + '\n'.join(rows2) + '\n'
+if hdr in s2:
+    a = s2.index(hdr)
+    b = s2.find('\n## ', a + 5)
+    s2 = s2[:a] + body + (s2[b:] if b > 0 else '')
+else:
+    s2 = s2.rstrip('\n') + '\n\n' + body
+open(p2, 'w').write(s2)
+print('seeded rows:', len(rows2) - 2)
